@@ -26,25 +26,33 @@ Theorem C05_wrap_no_empty_line : forall esc ws width c0 c1 md,
 Proof. exact wrap_no_empty_line. Qed.
 Print Assumptions C05_wrap_no_empty_line.
 
-(* Width bound: line 0 starts at column c0 (initial column), every later line at c1
-   (subsequent offset); a line exceeds the width only if it is a single word. *)
-Theorem C05_wrap_width : forall esc ws width c0 c1 md i l,
+(* Width bound, exact: line i is measured from the column the loop accounts for it. *)
+Theorem C05_wrap_width_exact : forall esc ws width c0 c1 md i l,
+  nth_error (wrap_words esc ws width c0 c1 md) i = Some l ->
+  col_at c1 (scol0 ws width c0 c1) i + llen l <= width \/ length l = 1%nat.
+Proof. exact wrap_width_exact. Qed.
+Print Assumptions C05_wrap_width_exact.
+
+(* Width bound as the property states it, measured from the real first-line column c0;
+   guard: first word fits at c0, or c0 <= c1 (Findings/C05_refuted.v refutes the unguarded form: D-11). *)
+Theorem C05_wrap_width_partial : forall esc ws width c0 c1 md i l,
+  (c0 <= c1 \/ match ws with w :: _ => c0 + wlen w <= width | [] => True end) ->
   nth_error (wrap_words esc ws width c0 c1 md) i = Some l ->
   col_at c1 c0 i + llen l <= width \/ length l = 1%nat.
-Proof. exact wrap_width. Qed.
-Print Assumptions C05_wrap_width.
+Proof. exact wrap_width_partial. Qed.
+Print Assumptions C05_wrap_width_partial.
 
 Theorem C05_wrap_maximal : forall esc ws width c0 c1 md,
   exists Lo, concat Lo = ws /\ wrap_words esc ws width c0 c1 md = esc_lines esc md true Lo /\
     forall i l h t,
       nth_error (wrap_words esc ws width c0 c1 md) i = Some l ->
       nth_error Lo (S i) = Some (h :: t) ->
-      width < col_at c1 c0 i + llen l + 1 + wlen h.
+      width < col_at c1 (scol0 ws width c0 c1) i + llen l + 1 + wlen h.
 Proof. exact wrap_maximal. Qed.
 Print Assumptions C05_wrap_maximal.
 
 (* The extracted checker accepts every output of the model ... *)
-Theorem C05_wrap_checker_accepts_model : forall esc width c0 c1 md ws,
+Theorem C05_wrap_checker_accepts_model : forall esc width c1 md ws c0,
   wrap_ok esc ws width c0 c1 md (wrap_words esc ws width c0 c1 md) = true.
 Proof. exact wrap_words_ok. Qed.
 Print Assumptions C05_wrap_checker_accepts_model.
